@@ -148,6 +148,7 @@ type World struct {
 	picks      []int8 // forced picks (start, task exit, block): recorded or replayed
 	pickPos    int
 	pickReplay bool
+	effPicks   []int8
 	pctNext    int
 
 	hash  uint64
@@ -159,6 +160,7 @@ type World struct {
 
 	callSerial uint64
 	rotCtr     uint64
+	poolCount  uint32
 }
 
 // W is the installed world (nil: shims degrade to plain deterministic behaviour).
@@ -271,6 +273,11 @@ type Source struct {
 	// Scheduling decisions taken at yields inside this call.
 	Switches []Switch
 	swPos    int
+
+	// In replay mode: what was effectively decided (equals Tape/Switches when
+	// replay is exact; after lenient replay this is the strict re-recording).
+	EffTape     []uint32
+	EffSwitches []Switch
 }
 
 // Switch is a recorded pre-emption: at the Yield-th yield of the call, run task To.
@@ -304,16 +311,18 @@ func (s *Source) Choose(n int) int {
 		return 0
 	}
 	if s.Replay {
+		v := 0
 		if s.pos >= len(s.Tape) {
 			s.Exhausted++
-			return 0
+		} else {
+			v = int(s.Tape[s.pos])
+			s.pos++
+			if v >= n {
+				s.Clamped++
+				v %= n
+			}
 		}
-		v := int(s.Tape[s.pos])
-		s.pos++
-		if v >= n {
-			s.Clamped++
-			v %= n
-		}
+		s.EffTape = append(s.EffTape, uint32(v))
 		return v
 	}
 	v := int(s.next() % uint64(n))
@@ -355,7 +364,7 @@ func (h HangSentinel) Error() string {
 // BeginCall marks the start of an API call by the current task.
 //
 //go:norace
-func (w *World) BeginCall(id uint32, kind uint32, src *Source) {
+func (w *World) BeginCall(id uint32, kind uint32, src *Source, budget int64) {
 	t := w.cur
 	w.callSerial++
 	t.callSerial = w.callSerial
@@ -365,6 +374,9 @@ func (w *World) BeginCall(id uint32, kind uint32, src *Source) {
 	t.callYields = 0
 	t.callSteps = 0
 	t.budget = w.Cfg.StepBudget
+	if budget > 0 {
+		t.budget = budget
+	}
 	t.held = 0
 	w.ev(EvCallBegin, id, kind)
 }
